@@ -2,7 +2,7 @@
 # confirm_seed.sh <worktree> <k>: confirm a seeded defect: applies _seed/k/patch.diff, builds, runs the
 # repo's test suite (must pass), runs the demo (must fail); reverts, rebuilds, runs the demo (must pass).
 wt="$1"; k="$2"; d="$wt/_seed/$k"
-demo=$(ls "$d"/demo.* | head -1)
+if [ -f "$d/demo.py" ]; then demo="$d/demo.py"; elif [ -f "$d/demo.sh" ]; then demo="$d/demo.sh"; else demo=$(ls "$d"/demo.* | head -1); fi
 cd "$wt" || exit 2
 git checkout -q -- . && make -j16 >/dev/null 2>&1
 git apply "$d/patch.diff" || { echo "RESULT $wt $k apply-failed"; exit 1; }
